@@ -155,6 +155,13 @@ func (f *Frame) binop(x *ssa.BinOp, st *State, reach Term) Value {
 				// the hidden index of a range loop stays in [-1, len): its increment cannot wrap
 				return T(sInt, "(+ %s %s)", a.S, b.S)
 			}
+			if f.vc.con != nil && f.vc.con.Opts["overflow"] == "checked" && signed {
+				// the sum is taken as the mathematical one; that it fits is a separate
+				// obligation (safe/overflow) instead of a wrap-around in every later formula
+				r := T(sInt, "(+ %s %s)", a.S, b.S)
+				f.safety("overflow", "add:"+shortVal(x.X)+"+"+shortVal(x.Y), reach, T(sBool, "(and (<= %s %s) (<= %s %s))", minI64, r.S, r.S, maxI64), x.Pos())
+				return r
+			}
 			return f.vc.define("add", T(sInt, "%s", wrapInt(fmt.Sprintf("(+ %s %s)", a.S, b.S), signed)))
 		case token.SUB:
 			return f.vc.define("sub", T(sInt, "%s", wrapInt(fmt.Sprintf("(- %s %s)", a.S, b.S), signed)))
